@@ -95,8 +95,11 @@ def build_harness(race=False):
     return rc == 0, o
 
 
+MODEL_PREFIX = ["bash", "-c", 'ulimit -s unlimited 2>/dev/null || ulimit -s 4000000; exec "$@"', "--"]  # deep non-tail recursion on long lists
+
+
 def run_model(args, inp, timeout=1800):
-    return sh([os.path.join(BUILD, "modelrun")] + args, inp=inp, timeout=timeout)
+    return sh(MODEL_PREFIX + [os.path.join(BUILD, "modelrun")] + args, inp=inp, timeout=timeout)
 
 
 def run_harness(args, inp, timeout=1800, race=False, env=None):
@@ -233,3 +236,46 @@ def standard_proof_stage(chk, pid, vo_targets=None):
                         checker_cmd="make -C coq (coqc 8.16.1, full .vo build) && coqc props/%s.v (Print Assumptions parsed)" % pid,
                         trusted_base=list(TRUSTED_BASE_COMMON))
     return broken
+
+
+# ---------------------------------------------------------------- sharded differential runs
+def _run_shard(exe, args, lines, timeout, prefix=None, env=None):
+    cmd = (prefix or []) + [exe] + args
+    return sh(cmd, inp="\n".join(lines) + "\n", timeout=timeout, env=env)
+
+
+def run_pair(mode, args, lines, shards=12, timeout=900, harness_prefix=None, race=False, henv=None):
+    """run harness and modelrun on the same case lines (sharded over processes).
+    Output lines are '<local-idx> <payload>'; returns (impl_payloads, model_payloads, failures)
+    where payload lists are aligned with `lines` (None where a process died) and failures is a list of
+    (which, shard_lines, rc, output_tail)."""
+    from concurrent.futures import ThreadPoolExecutor
+    n = len(lines)
+    if n == 0:
+        return [], [], []
+    shards = max(1, min(shards, n))
+    bounds = [(i * n // shards, (i + 1) * n // shards) for i in range(shards)]
+    hexe = os.path.join(BUILD, "harness_race" if race else "harness")
+    mexe = os.path.join(BUILD, "modelrun")
+    impl = [None] * n
+    model = [None] * n
+    failures = []
+    def work(which, lo, hi):
+        exe = hexe if which == "impl" else mexe
+        rc, o, _ = _run_shard(exe, [mode] + args, lines[lo:hi], timeout,
+                              prefix=harness_prefix if which == "impl" else MODEL_PREFIX, env=henv if which == "impl" else None)
+        return which, lo, hi, rc, o
+    with ThreadPoolExecutor(max_workers=16) as ex:
+        futs = [ex.submit(work, w, lo, hi) for (lo, hi) in bounds for w in ("impl", "model")]
+        for fu in futs:
+            which, lo, hi, rc, o = fu.result()
+            tgt = impl if which == "impl" else model
+            got = 0
+            for l in o.splitlines():
+                sp = l.split(" ", 1)
+                if len(sp) == 2 and sp[0].isdigit() and lo + int(sp[0]) < hi:
+                    tgt[lo + int(sp[0])] = sp[1]
+                    got += 1
+            if rc != 0 or got != hi - lo:
+                failures.append((which, lo, hi, rc, o[-1500:]))
+    return impl, model, failures
